@@ -36,7 +36,9 @@ M = [
  ("for_loops_lt_count", "C08", "forexpand.go", "for i := 1; i <= f.forCount; i++ {\n\t\tfor pos, tok := range f.forContent {", "for i := 1; i < f.forCount || (i == 1 && f.forCount == 1); i++ {\n\t\tfor pos, tok := range f.forContent {"),
  ("block_labels_one_line_late", "C08", "forexpand.go", "\tf.forLabelPos = len(f.forContent)\n\tif f.forDanglingPos >= 0 {", "\tf.forLabelPos = len(f.forContent) + 1\n\tif f.forDanglingPos >= 0 {"),
  ("held_labels_dropped_at_equ", "C08", "forexpand.go", "\tlabels := f.labelBuf\n\tfor _, label := range labels {\n\t\tf.tokens <- token{tokText, label}\n\t}\n\tf.labelBuf = make([]string, 0)\n", "\tlabels := f.labelBuf\n\tfor _, label := range labels {\n\t\tf.tokens <- token{tokText, label}\n\t}\n\tf.labelBuf = make([]string, 0)\n\tf.heldLabels = nil\n"),
- ("nested_equ_first_copy_only", "C08", "forexpand.go", "\t\tif !hasNestedEqu {\n", "\t\tif !hasNestedEqu || i == 1 {\n"),
+ ("nested_equ_first_copy_only", "C08", "forexpand.go", "\t\tif !f.recordEqus(f.forContent, subst, 1) || !hasNestedEqu {\n", "\t\tif !f.recordEqus(f.forContent, subst, 1) || !hasNestedEqu || i == 1 {\n"),
+ ("blocker_forgotten_when_defined", "C08", "forexpand.go", "\t\tif _, defined := f.symbols[blocker]; !defined {\n\t\t\treturn blocker\n\t\t}\n", "\t\tif _, defined := f.symbols[blocker]; !defined || true {\n\t\t\treturn blocker\n\t\t}\n"),
+ ("failed_marks_every_collected_symbol", "C08", "expr.go", "\t\t\tif err, bad := failed[tok.val]; bad {\n\t\t\t\treturn err\n\t\t\t}", "\t\t\tif err, bad := failed[tok.val]; bad {\n\t\t\t\tfor k := range symbols {\n\t\t\t\t\tfailed[k] = err\n\t\t\t\t}\n\t\t\t\treturn err\n\t\t\t}"),
  ("trailing_remark_is_metadata", "C03", "parser.go", "if p.nextToken.typ == tokComment && p.gapAtLineStart {", "if p.nextToken.typ == tokComment {"),
  ("scanner_ignores_colon", "C03", "symbol_scanner.go", "\tcase tokColon:\n\t\t// \"label: op\", as in the parser and the FOR expander\n\t\tfallthrough\n", ""),
  ("error_order_by_map", "C14", "parser.go", "if !found || i < firstLine || (i == firstLine && symbol < firstSymbol) {", "if !found {"),
@@ -67,6 +69,8 @@ M = [
 EXPECTED_SURVIVORS = {
     "loader_comma_check_removed": "a line without comma still yields exactly one instruction; C10 does not require the comma",
     "listing_sign_threshold_ge": "M/2 printed as -M/2 is the same field modulo M; C16 compares modulo M",
+    "blocker_forgotten_when_defined": "in a valid program every name of a nested count is defined before the count is looked at, so no count is ever blocked: the memo only changes what an invalid program costs and which error it gets",
+    "failed_marks_every_collected_symbol": "symbols only fail to resolve in programs that are refused anyway (over-long values): equivalent on valid programs, which is all C08 speaks of",
 }
 
 
